@@ -211,7 +211,7 @@ struct SIMDVector<int64_t,simd_abi::avx512> {
 
     FASTOR_INLINE int64_t minimum() {
         const int64_lane_t *vals = reinterpret_cast<const int64_lane_t*>(&value);
-        int64_t quan = 0;
+        int64_t quan = vals[0]; // start from a lane, not from 0 (wrong for all-positive / all-negative lanes)
         for (FASTOR_INDEX i=0; i<Size; ++i)
             if (vals[i]<quan)
                 quan = vals[i];
@@ -219,7 +219,7 @@ struct SIMDVector<int64_t,simd_abi::avx512> {
     }
     FASTOR_INLINE int64_t maximum() {
         const int64_lane_t *vals = reinterpret_cast<const int64_lane_t*>(&value);
-        int64_t quan = 0;
+        int64_t quan = vals[0]; // start from a lane, not from 0 (wrong for all-positive / all-negative lanes)
         for (FASTOR_INDEX i=0; i<Size; ++i)
             if (vals[i]>quan)
                 quan = vals[i];
@@ -561,7 +561,7 @@ struct SIMDVector<int64_t,simd_abi::avx> {
 
     FASTOR_INLINE int64_t minimum() {
         const int64_lane_t *vals = reinterpret_cast<const int64_lane_t*>(&value);
-        int64_t quan = 0;
+        int64_t quan = vals[0]; // start from a lane, not from 0 (wrong for all-positive / all-negative lanes)
         for (FASTOR_INDEX i=0; i<Size; ++i)
             if (vals[i]<quan)
                 quan = vals[i];
@@ -569,7 +569,7 @@ struct SIMDVector<int64_t,simd_abi::avx> {
     }
     FASTOR_INLINE int64_t maximum() {
         const int64_lane_t *vals = reinterpret_cast<const int64_lane_t*>(&value);
-        int64_t quan = 0;
+        int64_t quan = vals[0]; // start from a lane, not from 0 (wrong for all-positive / all-negative lanes)
         for (FASTOR_INDEX i=0; i<Size; ++i)
             if (vals[i]>quan)
                 quan = vals[i];
@@ -881,7 +881,7 @@ struct SIMDVector<int64_t,simd_abi::sse> {
 
     FASTOR_INLINE int64_t minimum() {
         const int64_lane_t *vals = reinterpret_cast<const int64_lane_t*>(&value);
-        int64_t quan = 0;
+        int64_t quan = vals[0]; // start from a lane, not from 0 (wrong for all-positive / all-negative lanes)
         for (FASTOR_INDEX i=0; i<Size; ++i)
             if (vals[i]<quan)
                 quan = vals[i];
@@ -889,7 +889,7 @@ struct SIMDVector<int64_t,simd_abi::sse> {
     }
     FASTOR_INLINE int64_t maximum() {
         const int64_lane_t *vals = reinterpret_cast<const int64_lane_t*>(&value);
-        int64_t quan = 0;
+        int64_t quan = vals[0]; // start from a lane, not from 0 (wrong for all-positive / all-negative lanes)
         for (FASTOR_INDEX i=0; i<Size; ++i)
             if (vals[i]>quan)
                 quan = vals[i];
